@@ -76,7 +76,7 @@ func C06(r *vf.Run) {
 		return
 	}
 	chunks := r.N(80, 8000)
-	vf.Parallel(runtime.NumCPU(), chunks, func(w, ci int) {
+	r.Parallel(runtime.NumCPU(), chunks, func(w, ci int) {
 		g := r.Rand("hist").Fork(uint64(ci))
 		cells := map[string]int64{}
 		for k := 0; k < 250 && !r.TooMany(); k++ {
